@@ -10,8 +10,8 @@ Open Scope list_scope.
 (* what apply() does once the guard has let the call through (skip_validation = False) *)
 Definition run_effects (d : mdomain) (eps : float) (ga : gaction) (objs : option objects) (order uorder : list nat)
            (prev : state) : result state :=
-  do cur <- foldM (fun cur g => do h <- antecedents_hold d eps g prev;
-                                if h then apply_group_m eps prev cur g else Ok cur)
+  do cur <- foldM (fun cur g => do h <- antecedents_hold d eps objs g prev;
+                                if h then apply_group_m prev cur g else Ok cur)
                   (reorder (ga_groups ga) order) prev;
   apply_universal d eps ga objs uorder prev cur.
 
@@ -75,8 +75,8 @@ Section Plan.
       destruct (dget (d_actions d) (ac_name c)) as [a|] eqn:Ea; [|discriminate].
       exists c, a.
       destruct (apply_action d eps (Some objs) allow (ord a) a (ac_args c) (ms_st prev)) as [s|k] eqn:E.
-      + exists s. inversion H; subst. repeat split; reflexivity.
-      + destruct k; try discriminate. exists (ms_st prev). inversion H; subst. repeat split; reflexivity.
+      + exists s. inversion H; subst. repeat split; first [reflexivity | assumption].
+      + destruct k; try discriminate. exists (ms_st prev). inversion H; subst. repeat split; first [reflexivity | assumption].
     - intros [c [a [post [Hc [Ha [Hp Ht]]]]]]. rewrite Hc. simpl. rewrite Ha.
       destruct (apply_action d eps (Some objs) allow (ord a) a (ac_args c) (ms_st prev)) as [s|k] eqn:E.
       + inversion Hp; subst. reflexivity.
@@ -180,30 +180,37 @@ Section Plan.
 End Plan.
 
 (* ---------- export: one operator line and one state per triplet after the first state ---------- *)
+Lemma interleave_shape {T X} (f g : T -> X) (l : list T) :
+  List.length (flat_map (fun t => [f t; g t]) l) = 2 * List.length l /\
+  forall k t, nth_error l k = Some t ->
+    nth_error (flat_map (fun t => [f t; g t]) l) (2 * k) = Some (f t) /\
+    nth_error (flat_map (fun t => [f t; g t]) l) (S (2 * k)) = Some (g t).
+Proof.
+  induction l as [|x xs [IH1 IH2]].
+  - split; [reflexivity|]. intros k t Hk. destruct k; discriminate.
+  - split.
+    + change (flat_map (fun t => [f t; g t]) (x :: xs)) with (f x :: g x :: flat_map (fun t => [f t; g t]) xs).
+      cbn [List.length]. rewrite IH1. lia.
+    + intros k t Hk.
+      change (flat_map (fun t => [f t; g t]) (x :: xs)) with (f x :: g x :: flat_map (fun t => [f t; g t]) xs).
+      destruct k as [|k].
+      * cbn [nth_error] in Hk. inversion Hk; subst. split; reflexivity.
+      * cbn [nth_error] in Hk. destruct (IH2 k t Hk) as [A B].
+        replace (2 * S k) with (S (S (2 * k))) by lia. cbn [nth_error]. split; [exact A | exact B].
+Qed.
+
 Lemma export_shape ts items :
   export ts = Ok items ->
-  List.length items = 1 + 2 * List.length ts /\
+  List.length items = S (2 * List.length ts) /\
   (forall t, hd_error ts = Some t -> hd_error items = Some (XState (t_prev t))) /\
   (forall k t, nth_error ts k = Some t ->
-     nth_error items (1 + 2 * k) = Some (XOp [t_op t]) /\ nth_error items (2 + 2 * k) = Some (XState (t_next t))).
+     nth_error items (S (2 * k)) = Some (XOp [t_op t]) /\ nth_error items (S (S (2 * k))) = Some (XState (t_next t))).
 Proof.
   unfold export. destruct ts as [|t0 r]; [discriminate|]. intros H. inversion H; subst. clear H.
-  set (l := t0 :: r).
-  assert (Hl : forall l : list triplet,
-             List.length (flat_map (fun t => [XOp [t_op t]; XState (t_next t)]) l) = 2 * List.length l /\
-             forall k t, nth_error l k = Some t ->
-               nth_error (flat_map (fun t => [XOp [t_op t]; XState (t_next t)]) l) (2 * k) = Some (XOp [t_op t]) /\
-               nth_error (flat_map (fun t => [XOp [t_op t]; XState (t_next t)]) l) (1 + 2 * k) = Some (XState (t_next t))).
-  { induction l0 as [|x xs [IH1 IH2]]; simpl.
-    - split; [reflexivity|]. intros k t Hk. destruct k; discriminate.
-    - split; [rewrite IH1; lia|]. intros k t Hk. destruct k as [|k]; simpl in Hk.
-      + inversion Hk; subst. split; reflexivity.
-      + destruct (IH2 k t Hk) as [A B].
-        replace (2 * S k) with (S (S (2 * k))) by lia. replace (1 + S (S (2 * k))) with (S (S (1 + 2 * k))) by lia.
-        simpl. split; [exact A | exact B]. }
-  destruct (Hl l) as [L1 L2]. repeat split.
-  - simpl. rewrite L1. reflexivity.
-  - intros t Ht. simpl in Ht. inversion Ht; subst. reflexivity.
-  - destruct (L2 k t H) as [A _]. simpl. exact A.
-  - destruct (L2 k t H) as [_ B]. replace (2 + 2 * k) with (S (1 + 2 * k)) by lia. simpl. exact B.
+  destruct (interleave_shape (fun t => XOp [t_op t]) (fun t => XState (t_next t)) (t0 :: r)) as [L1 L2].
+  repeat split.
+  - cbn [List.length]. f_equal. exact L1.
+  - intros t Ht. cbn [hd_error] in *. inversion Ht; subst. reflexivity.
+  - destruct (L2 k t H) as [A _]. cbn [nth_error]. exact A.
+  - destruct (L2 k t H) as [_ B]. cbn [nth_error]. exact B.
 Qed.
